@@ -5,7 +5,7 @@ out: {"lit": {token: [texts]}, "kw": {text: {"tok": token, "syntax": mask-name}}
 import json, re, sys
 lex, kw, out = sys.argv[1:4]
 lit = {}
-for m in re.finditer(r'^"((?:[^"\\]|\\.)+)"\s*\{\s*return\s+([^;]+);\s*\}', open(lex).read(), re.M):
+for m in re.finditer(r"""^"((?:[^"\\]|\\.)+)"\s*\{\s*return\s+('(?:[^'\\]|\\.)'|[^;']+);\s*\}""", open(lex).read(), re.M):
     text = m.group(1).encode().decode("unicode_escape")
     tok = m.group(2).strip()
     if tok.startswith("'"):
